@@ -166,6 +166,29 @@ def check(ctx):
         ctx.check(bool(loops) and not rebound, "C05.R3", q + ":fields", fi.node.body[0], "object() does not iterate the `fields` it was given (or rebinds it): the two directions could see different field lists", fi, fi.node, detail=f"{len(loops)} iteration(s) over the parameter")
         keyexpr = [norm(c) for c in nodes if isinstance(c, ast.Call) and norm(c.func) == "self.aliaser" and c.args and norm(c.args[0]) == "field.alias"]
         ctx.check(bool(keyexpr), "C05.R3", q + ":key", fi.node.body[0], "external key is not built as self.aliaser(field.alias)", fi, fi.node, detail="self.aliaser(field.alias)")
+    # discriminated unions: the key written by serialization is the key read by deserialization
+    from ..rules.c11 import bind_args, init_params
+    keys = {}
+    for q, cname, mod in (("apischema.deserialization.DeserializationMethodVisitor.discriminate", "DiscriminatorMethod", "apischema.deserialization.methods"),
+                          ("apischema.serialization.SerializationMethodVisitor.discriminate", "DiscriminatedAlternative", "apischema.serialization.methods")):
+        fi = model.func(q)
+        calls = [c for c in ast.walk(fi.node) if isinstance(c, ast.Call) and dotted(c.func) == cname]
+        ctx.require(calls, f"{cname} construction not found in {q}")
+        bound = bind_args(init_params(model, model.cls(f"{mod}.{cname}")), calls[0])
+        e = bound.get("alias")
+        # follow one local
+        if isinstance(e, ast.Name):
+            name = e.id
+            for n in ast.walk(fi.node):
+                if isinstance(n, ast.Assign) and isinstance(n.targets[0], ast.Name) and n.targets[0].id == name:
+                    e = n.value
+                    break
+        keys[q] = norm(e) if e is not None else None
+    vals = list(keys.values())
+    ctx.check(vals[0] == vals[1] and vals[0] is not None, "C05.R3", "discriminator-key", f"{vals[0]} vs {vals[1]}",
+              f"deserialization reads the discriminator under `{vals[0]}` but serialization writes it under `{vals[1]}`: a serialized discriminated value cannot be deserialized back", None, None, detail=f"both `{vals[0]}`")
+    if vals[0] != vals[1]:
+        ctx.findings[-1].file = "apischema/serialization/__init__.py"
     ob = model.func(f"{OV}.ObjectVisitor._object")
     ctx.check("return self.object(tp, fields)" in norm(ob.node), "C05.R3", ob.qualname, ob.node.body[-1], "_object no longer hands the filtered / aliased field list to object()", ob, ob.node, detail="self.object(tp, fields)")
 
@@ -182,5 +205,6 @@ def mutants(mb):
     mb.add_text("kind-filter-same", OVp, "class SerializationObjectVisitor(ObjectVisitor[Result]):\n    _field_kind_filtered = FieldKind.WRITE_ONLY", "class SerializationObjectVisitor(ObjectVisitor[Result]):\n    _field_kind_filtered = FieldKind.READ_ONLY", "C05.R2", "_field_kind_filtered")
     mb.add_text("annotated-conversion-crossed", "apischema/conversions/visitor.py", "    ) -> Optional[AnyConversion]:\n        return annotation.serialization", "    ) -> Optional[AnyConversion]:\n        return annotation.deserialization", "C05.R2", "_annotated_conversion")
     mb.add_text("ser-refetches-fields", "apischema/serialization/__init__.py", "        typed_dict = is_typed_dict(cls)\n        for field in fields:", "        typed_dict = is_typed_dict(cls)\n        fields = list(object_fields(tp, serialization=True).values())\n        for field in fields:", "C05.R3", "fields")
+    mb.add_text("discriminator-key-raw", "apischema/serialization/__init__.py", "                        self.aliaser(discriminator.alias),\n", "                        discriminator.alias,\n", "C05.R3", "discriminator-key")
     mb.add_text("neg-typing-list", S, "    deserializer(Conversion(deque, source=list[T], target=deque[T]))  # type: ignore", "    deserializer(Conversion(deque, source=List[T], target=deque[T]))  # type: ignore", negative=True)
     mb.out[-1].new_src = mb.out[-1].new_src.replace("from typing import TypeVar\n", "from typing import List, TypeVar\n", 1)
